@@ -127,8 +127,12 @@ fn run_generated(seed: u64, case: u64, thorough: bool, model: &mut Option<ModelP
         if out.failure.is_some() {
             return out;
         }
-        let line = gen_next(&mut rng, w.as_ref().unwrap());
-        exec_line(&mut w, &line, model, &mut out, false);
+        for line in gen_next(&mut rng, w.as_ref().unwrap()) {
+            if out.failure.is_some() {
+                return out;
+            }
+            exec_line(&mut w, &line, model, &mut out, false);
+        }
     }
     // checkpoint: every early-stop position in both directions for a few query trees, key paging,
     // point lookups, statistics, final contents
@@ -209,7 +213,7 @@ fn main() {
         }
     }
 
-    let n_cases = args.budget(1200, 40000);
+    let n_cases = args.budget(8000, 1_200_000);
     let threads = std::thread::available_parallelism().map(|n| n.get()).unwrap_or(4).min(16) as u64;
     let thorough = args.thorough() || args.focus.is_some();
     let outs: Vec<Vec<(u64, CaseOut)>> = std::thread::scope(|sc| {
